@@ -46,7 +46,7 @@ func (f *CallNextMethod) Call(s *slip.Scope, args slip.List, depth int) slip.Obj
 		slip.ErrorPanic(s, depth, "%s called outside an around method qualifier.", f.Name)
 	}
 	if !loc.HasNext() {
-		nnm := slip.MustFindFunc("no-next-method")
+		nnm := slip.MustFindFunc("no-next-method", &Pkg)
 		gf := slip.MustFindFunc(loc.Method.Name)
 
 		return nnm.Apply(s, append(slip.List{gf, loc.Method}, args...), depth)
